@@ -194,7 +194,8 @@ Definition select_rows (t : table) (w : option pred) : option (list (nat * row))
 Definition I64_MIN : Z := -9223372036854775808.
 Definition I64_MAX : Z := 9223372036854775807.
 
-(** [None] = panic (debug-build i64 overflow in [Integer(a + b)]) *)
+(** [None] = evaluation error: i64 overflow in [+] / [-] (checked_add / checked_sub ->
+    ExecutorError "BIGINT value is out of range") *)
 Definition eval_sexpr (e : sexpr) (r : row) : option val :=
   match e with
   | EConst v => Some v
@@ -218,7 +219,7 @@ Fixpoint apply_asg (orig : row) (asg : list (nat * sexpr)) (acc : row) : option 
       end
   end.
 
-Inductive upd_plan := UPanic | UConstraint | UPlan (us : list (nat * row * row)).
+Inductive upd_plan := UEvalErr | UConstraint | UPlan (us : list (nat * row * row)).
 
 (** step 6 of UpdateExecutor::execute_internal: build and validate (against the pre-statement
     table) the list (index, old row, new row) *)
@@ -228,7 +229,7 @@ Fixpoint upd_build (t : table) (asg : list (nat * sexpr)) (cands : list (nat * r
   | [] => UPlan acc
   | (i, old) :: rest =>
       match apply_asg old asg old with
-      | None => UPanic
+      | None => UEvalErr
       | Some new =>
           if upd_validate t old new then upd_build t asg rest (acc ++ [(i, old, new)])
           else UConstraint
@@ -261,7 +262,7 @@ Definition do_update (t : table) (asg : list (nat * sexpr)) (w : option pred) : 
     | None => (t, RPanic)
     | Some cands =>
         match upd_build t asg cands [] with
-        | UPanic => (t, RPanic)
+        | UEvalErr => (t, RErrOther)
         | UConstraint => (t, RErrConstraint)
         | UPlan ups =>
             let '(t', ok) := upd_apply_rows t (map fst asg) ups in
